@@ -22,6 +22,7 @@ def stmt(act):
     if a == "AssignFromVar": return f"{n} = {m}"
     if a == "IndexAssign": return f"{n}[{act['i']}] = 9"
     if a == "OpAssign": return f"{n} += 1"
+    if a == "OpAssignVar": return f"{n} {'+-*'[act['i'] - 1]}= {m}"
     if a == "FieldAssign": return f"{n}.x = 9"
     if a == "TupleElemAssign": return f"{n}.1 = 9"
     if a == "Destructure": return f"({n}, {m}) := (7, 8)"
@@ -40,7 +41,9 @@ def model_value(v):
     if c == "rec": return ('rec', (('x', 'f64', num(d[0])), ('y', 'f64', num(d[1]))))
     if c == "tup": return ('tup', (num(d[0]), num(d[1])))
     if c == "set": return ('setval', frozenset([num(1), num(2)]))
-    if c == "tbl": return ('tbl', 1, (('x', 'f64', (num(1),)), ('y', 'f64', (num(2),))))
+    if c == "tbl":
+        rows = len(d) // 2
+        return ('tbl', rows, (('x', 'f64', tuple(num(d[2 * k]) for k in range(rows))), ('y', 'f64', tuple(num(d[2 * k + 1]) for k in range(rows)))))
     raise ValueError(v)
 
 def observed_value(p):
